@@ -116,6 +116,10 @@ CCompare(op, a, b) ==
   ELSE IF a.t = "bv" /\ b.t = "bv" THEN
        (IF op \in {"eq", "ne"} /\ CWidth(a) = CWidth(b) THEN CBool(CRel(op, a.v, b.v))
         ELSE CErr("reject:BitVector comparison"))
+  \* a BitVector compared with a bit-string literal of its width (the `case "0101":` pattern of a match statement)
+  ELSE IF (a.t = "bv" /\ b.t = "str") \/ (a.t = "str" /\ b.t = "bv") THEN
+       (IF op \in {"eq", "ne"} /\ Len(a.v) = Len(b.v) THEN CBool(CRel(op, a.v, b.v))
+        ELSE CErr("reject:BitVector comparison with a literal of another width"))
   ELSE
   LET kind == IF a.t = "int" THEN b.t ELSE a.t IN
   IF ~(kind \in {"u", "s"}) \/ ~(a.t \in {kind, "int"}) \/ ~(b.t \in {kind, "int"})
